@@ -37,6 +37,9 @@ CHECKS = {
     'C09': dict(level='model_checking', ref='7 C09', technique='TLA+ model (collision table, ConsistentAtRest, liveness under fairness) + TLC + replay of every transition; random walks with a lossless drain',
                 text=IKE + '; ConsistentAtRest is checked by TLC with the KnownToBoth trigger guard, EventuallyQuiescent under weak/strong fairness on a small instance; seeded random walks (lossless and lossy) end with a drain and a liveness probe and compare the two endpoints at rest.',
                 note='expire triggers restricted to CHILD_SAs known to both peers (carve-out of the property); internal IkeSaStateError teardowns (a request overtaking the IKE_AUTH response) are recorded as observations, not violations.'),
+    'C02': dict(level='model_checking', ref='7 C02', technique='TLA+ model Auth.tla with a Dolev-Yao man in the middle (Agreement, ResponderAgreement, NoInstallWithoutAuth, NoKeyCompromise) + TLC + every attack path replayed by a concrete attacker; AUTH recomputed from wire octets',
+                text='TLC checks on Auth.tla all combinations of field substitutions in messages 1 and 2 (nonces, KE values, SPIs, reduced offer, foreign / weaker chosen transform), re-sealing of IKE_AUTH with rewritten AUTH / ID when the attacker owns both key sets, for correct and wrong credentials on either side; a weakened AUTH must exhibit the downgrade attack (vacuity control). Every attack path of the model is executed against two real endpoints by a concrete attacker (own DH scalars, independent key schedule, re-sealing with the independent encoder) and final states / kernel installs are compared with the model; in unmodified handshakes every AUTH payload is recomputed from the wire octets for each PRF and both methods.',
+                note='meaning-preserving rewrites (observation O-1) are outside the menu; KE substitution with ecp256.'),
     'C03': dict(level='model_checking', ref='7 C03', technique='TLA+ model (adversary action AdvForge, action property ForgeryHarmless) + TLC + replay with concrete forged datagrams; exhaustive forgery menu per keyed state',
                 text=IKE + ' - the adversary injects cleartext, foreign-key and reflected datagrams that pass every header check; in addition, at every (role, state) pair with keys the full menu of the property (every exchange type, flag, Message ID, payload list; bit flips, truncations, extensions of the authentic datagram in flight) is delivered and a snapshot incl. the liveness timer compared.',
                 note='a protocol error escaping dispatch_message counts as no reply here (whether the loop survives is C17); IKE_SA_INIT requests always create a new responder and are not messages for an existing IKE_SA.'),
